@@ -20,7 +20,9 @@ for d in sorted(glob.glob(os.path.join(V, 'seeded', '*'))):
                 what = m.group(1)
                 break
         caught.append('%s: %s%s' % (p, 'VIOLATION' if r.get('detected') else ('inconclusive' if r.get('exit') == 2 else 'not detected'), (' [' + what + ']') if what and r.get('detected') else ''))
-    rows.append('| %s | %s | %s | %s |' % (sid, 'yes' if meta.get('confirmed') else 'no', (meta.get('one_line') or '').replace('|', '/'), '; '.join(caught)))
+    if meta.get('neutralised_by'):
+        caught = ['%s: exit %s — the change no longer breaks the property since fix %s (its demonstration passes); exit 0 is the right answer' % (p, r.get('exit'), meta['neutralised_by']) for p, r in sorted(det.items())]
+    rows.append('| %s | %s | %s | %s |' % (sid, ('at the time; neutralised by ' + meta['neutralised_by']) if meta.get('neutralised_by') else 'yes' if meta.get('confirmed') else 'no', (meta.get('one_line') or '').replace('|', '/'), '; '.join(caught)))
 print('| seeded change | confirmed | what it is / what it needs | checks run against it (quick tier) |')
 print('|---|---|---|---|')
 print('\n'.join(rows))
